@@ -108,6 +108,24 @@ CLAIMS = {
         "text": "Decides: the value printed after a label of a known class is the frame's own decoded field with exactly that bit provenance; the address source per format (checksum vs announced); presence of optional lines vs their condition bits (heading-valid, ACAS, HRD, L/W, vertical rate > 0, altitude > 0, velocity available); enum variant -> word maps; non-empty report for every supported frame kind on every path. Byte-exact output / float formatting are NOT decided; label wording around the keyword is free.",
         "note": TRUST,
     },
+    "C16": {
+        "engine": "graph", "technique": "CFG must-pass-through / must-avoid rules and panic-site inventory on the MIR of both client mains",
+        "design_ref": "DESIGN.md §4 C16",
+        "text": "Decides ONLY a structural skeleton (the statement quantifies over TCP segmentations and delays, which static analysis cannot reach): every path from a complete line to the next read_line empties the buffer; no path from a failed/timed-out read_line empties it; no panic site lies between read_line and the decode call (except allow-listed ones with a reason); Ok(0) flags the disconnect and the tracker is created once outside the loop.",
+        "note": TRUST,
+    },
+    "C17": {
+        "engine": "graph", "technique": "CFG must-pass-through for terminal teardown; call-graph reachability; allow-listed panic-site inventory of the UI code",
+        "design_ref": "DESIGN.md §4 C17",
+        "text": "Decides ONLY a structural skeleton: every Ok(()) exit of radar::main after raw-mode setup passes disable_raw_mode, DisableMouseCapture and show_cursor; every panic site reachable from the key/mouse handlers, draw functions and statistics update is allow-listed with a reason; CLI value parsers have no panic site; the UI cannot reach tracker mutators. NOT decided: all event sequences x terminal sizes, crossterm/ratatui internals, emitted escape codes.",
+        "note": TRUST,
+    },
+    "C18": {
+        "engine": "ai", "technique": "abstract interpretation of build_tab_airplanes / Stats::update / Settings::to_xy on named symbolic records; polynomial normal forms of the projection; field-writer sets",
+        "design_ref": "DESIGN.md §4 C18",
+        "text": "Decides ONLY a structural skeleton: the ten cells of a table row are the record's own values column by column (blanks only without a position); total_airplanes grows by exactly 1 per added aircraft and most_airplanes takes the tracked count under `most < count`; x = k*scale*(lon - centre lon), y = k*scale*(g(lat) - g(centre lat)) with k > 0 (east right, north up, centre at the origin); zoom/pan/reset write only view fields. NOT decided: what ratatui draws.",
+        "note": TRUST,
+    },
     "C03": {
         "engine": "ai",
         "technique": "const-evaluated table comparison + GF(2) bit-provenance abstract interpretation of the checksum loop",
